@@ -179,6 +179,7 @@ func checkSingle(w *World, rep *vh.Report, fl files, idx int, cs Case) {
 	if cs.Variant != nil {
 		idx = *cs.Variant
 	}
+	wsp, dsp := Spell(idx)
 	msg := w.Materialize(cs.C, idx)
 	replay := map[string]any{"kind": "single", "case": cs, "variant": idx}
 	sus := suspectSingle(cs.C)
@@ -191,12 +192,31 @@ func checkSingle(w *World, rep *vh.Report, fl files, idx int, cs Case) {
 	if err == nil && cs.Valid {
 		// the validated structure repeats what was configured
 		if (v.PubKey != nil) != (cs.C.PubKey == "ecdsa" || cs.C.PubKey == "rsa") || (v.FrozenSTH != nil) != (cs.C.FrozenSth == "okSigned") ||
-			(v.NotAfterStart != nil) != (cs.C.Start != "absent") || (v.NotAfterLimit != nil) != (cs.C.Limit != "absent") ||
+			(v.NotAfterStart != nil) != cs.C.Start.P || (v.NotAfterLimit != nil) != cs.C.Limit.P ||
 			(v.PrivKey != nil) != (cs.C.PrivKey == "ok") {
 			rep.Violate("validated:fields-do-not-match-config", "ValidatedLogConfig does not carry the parsed counterparts of the configured fields", replay)
 		}
 		if v.FrozenSTH != nil && (v.FrozenSTH.TreeSize != uint64(msg.FrozenSth.TreeSize) || !bytes.Equal(v.FrozenSTH.SHA256RootHash[:], msg.FrozenSth.Sha256RootHash)) {
 			rep.Violate("validated:frozen-sth-differs", "ValidatedLogConfig.FrozenSTH is not the configured STH", replay)
+		}
+		validatedWindow(rep, cs, v, wsp, replay)
+	}
+	// a window with both bounds: the verdict (and the validated bounds) under every other reading of the ranks, and the
+	// delays under another scale
+	if cs.C.Start.P && cs.C.Limit.P {
+		for sp := 0; sp < NumWindowSpellings(); sp++ {
+			if sp == wsp {
+				continue
+			}
+			alt := w.MaterializeSpelled(cs.C, idx, sp, dsp+sp)
+			var av *ctfe.ValidatedLogConfig
+			if guarded(rep, sus, replay, func() { av, err = ctfe.ValidateLogConfig(alt) }) {
+				continue
+			}
+			verdict(rep, "ValidateLogConfig", "direct", cs.Valid, err, cs.Failed, replay)
+			if err == nil && cs.Valid {
+				validatedWindow(rep, cs, av, sp, replay)
+			}
 		}
 	}
 	one := []*configpb.LogConfig{proto.Clone(msg).(*configpb.LogConfig)}
@@ -239,9 +259,69 @@ func checkSingle(w *World, rep *vh.Report, fl files, idx int, cs Case) {
 	}
 	key := "single:" + strings.Join(cs.Failed, "+")
 	if cs.Valid {
-		key = fmt.Sprintf("single:valid:%v/%v/%s/%s/%s", cs.C.IsMirror, cs.C.IsReadonly, cs.C.FrozenSth, cs.C.PubKey, cs.C.Backend)
+		key = fmt.Sprintf("single:valid:%v/%v/%s/%s/%s/%s", cs.C.IsMirror, cs.C.IsReadonly, cs.C.FrozenSth, cs.C.PubKey, cs.C.Backend, windowShape(cs.C))
+	} else if len(cs.Failed) == 1 && cs.Failed[0] == "window" {
+		key += ":" + windowShape(cs.C)
 	}
 	rep.Eval(key)
+}
+
+// windowShape: how the two bounds of the NotAfter window relate.
+func windowShape(c Cfg) string {
+	s, l := c.Start, c.Limit
+	switch {
+	case !s.P && !l.P:
+		return "none"
+	case (s.P && !s.WellFormed()) || (l.P && !l.WellFormed()):
+		return "malformed"
+	case !l.P:
+		return "start-only"
+	case !s.P:
+		return "limit-only"
+	}
+	rel := func(a, b int) string {
+		switch {
+		case a < b:
+			return "lt"
+		case a > b:
+			return "gt"
+		}
+		return "eq"
+	}
+	return "sec-" + rel(s.Sec, l.Sec) + "/nanos-" + rel(s.Nanos, l.Nanos)
+}
+
+// validatedWindow: an accepted configuration carries its bounds to the nanosecond (ValidatedCarriesWindow).
+func validatedWindow(rep *vh.Report, cs Case, v *ctfe.ValidatedLogConfig, sp int, replay any) {
+	want := ValidatedWindow{cs.C.Start, cs.C.Limit}
+	if cs.Validated != nil {
+		want = *cs.Validated
+	}
+	one := func(name string, t Ts, got *time.Time) {
+		if !t.P || got == nil {
+			return // presence is compared by the caller
+		}
+		if exp := t.Time(sp); !got.Equal(exp) {
+			rep.Violate("validated:window-differs:"+name+":"+instantRel(*got, exp),
+				fmt.Sprintf("ValidatedLogConfig.%s is %s, configured %s", name, got.UTC().Format(time.RFC3339Nano), exp.UTC().Format(time.RFC3339Nano)), replay)
+		}
+	}
+	one("NotAfterStart", want.Start, v.NotAfterStart)
+	one("NotAfterLimit", want.Limit, v.NotAfterLimit)
+	if want.Start.P && want.Limit.P && v.NotAfterStart != nil && v.NotAfterLimit != nil && v.NotAfterLimit.Before(*v.NotAfterStart) {
+		rep.Violate("validated:window-inverted", fmt.Sprintf("an accepted configuration carries NotAfterLimit %s before NotAfterStart %s",
+			v.NotAfterLimit.UTC().Format(time.RFC3339Nano), v.NotAfterStart.UTC().Format(time.RFC3339Nano)), replay)
+	}
+}
+
+func instantRel(got, want time.Time) string {
+	switch {
+	case got.Unix() == want.Unix():
+		return "same-second"
+	case got.Before(want):
+		return "earlier"
+	}
+	return "later"
 }
 
 // ------------------------------------------------------------------ sets and multi-configs
